@@ -83,6 +83,7 @@ def run(ctx, rep):
     borrow_discipline(F, rep)
     fallible_contract(F, rep)
     index_sites(F, rep)
+    len_minus(ctx, F, rep)
     rep.extra["analysis_rounds"] = fl.rounds
     rep.extra["hand_assembled_option_unwraps_counted_not_judged"] = getattr(fl, "uncounted", 0)
     # K4 panics outside the clause: counted
@@ -426,3 +427,77 @@ def index_sites(F, rep):
                why or "no range test of the index dominates the access: an unexpected length makes the compiler panic instead of reporting an error", s["span"], fn=f.path,
                key="C16.index|%s|%s" % (mir.short(f.path), s["what"][:40]))
     rep.floor("C16.index sites in crate compiler", n, 4)
+
+
+
+def len_minus(ctx, F, rep):
+    """`xs.len() - k` on an unsigned length panics (debug) or wraps (release) when the collection is shorter than k, and in the compiler every
+    collection's size comes from the input text.  Every checked subtraction in crate compiler whose minuend is a collection length
+    (`Vec::len`, slice length) and whose subtrahend is a constant is dominated by a test of that same length (a comparison, `is_empty`,
+    `checked_sub`), or is listed in rules/len_minus.json with the reason the collection cannot be that short."""
+    import json as _json
+    import os as _os
+    from core import VERIF
+    allow = {}
+    pth = _os.path.join(VERIF, "rules", "len_minus.json")
+    if _os.path.exists(pth):
+        for e in _json.load(open(pth))["allowed"]:
+            allow[(e["function"], e["collection"])] = e["reason"]
+    LEN = ("alloc::vec::Vec<T, A>::len", "alloc::vec::Vec::<T, A>::len", "core::slice::<impl [T]>::len", "alloc::vec::Vec::len", "alloc::collections::vec_deque::VecDeque::len")
+    n = 0
+    for f in F.crates["compiler"].fns:
+        for bi, blk in enumerate(f.blocks):
+            t = blk["t"]
+            if t["k"] != "assert" or not (t["msg"].startswith("Overflow") and "Sub" in t["msg"]):
+                continue
+            # the checked subtraction feeding this assert
+            sub = None
+            for s_ in blk["s"]:
+                rv = s_.get("rv", {})
+                if rv.get("bin") in ("SubWithOverflow",) and rv.get("lty") == "usize":
+                    sub = (rv, s_)
+            if sub is None:
+                continue
+            rv, st = sub
+            k = mir.op_const(rv["r"])
+            l = op_local(rv["l"])
+            if k is None or l is None:
+                continue
+            oc = rules.origin_calls(f, l, transparent=rules.TRANSPARENT)
+            lens = [c for c in oc if c.matches(LEN) or mir.short(c.callee()) in ("Vec::<T, A>::len", "Vec<T, A>::len", "[T]::len")]
+            meta = any(d[0] == "assign" and ("ptr_metadata" in str(d[4]) or d[4].get("un") == "PtrMetadata") for d in rules.defs_of(f, l))
+            if not lens and not meta:
+                continue
+            n += 1
+            # what is measured
+            coll = "?"
+            if lens:
+                rl = op_local(lens[0].args[0]) if lens[0].args else None
+                tp = rules.trace_paths(f, rl, transparent=rules.TRANSPARENT) if rl is not None else None
+                names = sorted({".".join(str(x) for x in fs) for (_, fs) in (tp or [])})
+                coll = names[0] if names and names[0] else "?"
+                if coll == "?" and rl is not None:
+                    # the receiver is a reference to a named local (`&idents`)
+                    for d in rules.defs_of(f, rl):
+                        if d[0] == "assign" and d[4].get("ref"):
+                            coll = f.local_name(d[4]["ref"]["l"]) or coll
+            key = "C16.len-minus|%s|%s" % (mir.short(f.path), coll)
+            inst = "%s: `%s.len() - %s` is computed only when the collection is long enough" % (mir.short(f.path), coll, k.get("int"))
+            # guarded: a branch on a value derived from the same length dominates the subtraction
+            der = f.derived([c.dst["l"] for c in lens] or [l])
+            guarded = False
+            for bb2, blk2 in enumerate(f.blocks):
+                t2 = blk2["t"]
+                if t2["k"] == "switch" and op_local(t2["discr"]) in der and bb2 != bi:
+                    for tgt in set(x[1] for x in t2["targets"]) | {t2["otherwise"]}:
+                        if not bi in f.reachable(0, removed_edges={(bb2, tgt)}):
+                            guarded = True
+            emp = [c for c in f.calls() if mir.short(c.callee()).endswith("::is_empty") and rules.call_dominates(f, [c], bi)]
+            if guarded or emp:
+                rep.ob("C16.len-minus", inst, "ok", "dominated by a test of the length", st.get("sp"), fn=f.path, key=key)
+            elif (mir.short(f.path), coll) in allow:
+                rep.ob("C16.len-minus", inst, "exempt", allow[(mir.short(f.path), coll)], st.get("sp"), fn=f.path, key=key)
+            else:
+                rep.ob("C16.len-minus", inst, "violated", "no test of the length dominates the subtraction: an input that makes the collection shorter than %s "
+                       "crashes the compiler (`attempt to subtract with overflow`)" % k.get("int"), st.get("sp"), fn=f.path, key=key)
+    rep.floor("C16.len-minus length subtractions in the compiler", n, 1)
